@@ -192,7 +192,7 @@ def run_history(ptn, init, ops):
                         g.merge_edges(e1, e2, d)
                         tr.append(dict(ev='merge', e1=int(e1), e2=int(e2), dir=int(d), g=graph_json(g), cons=_cons(g)))
                     elif kind in ('rename_node', 'rename_edge'):
-                        _, a, b = op
+                        a, b = op[1], op[2]
                         if a == 'pick':
                             ids = sorted(g.nodes if kind == 'rename_node' else g.edges)
                             if not ids:
@@ -208,6 +208,30 @@ def run_history(ptn, init, ops):
                     elif kind == 'flip':
                         g.flip()
                         tr.append(dict(ev='flip', g=graph_json(g), cons=_cons(g)))
+                    elif kind == 'depths':
+                        tr.append(dict(ev='depths', length=int(g.length),
+                                       depths=[[int(n), int(g.node_depth(n, 0)), int(g.node_depth(n, 1))] for n in sorted(g.nodes)]))
+                    elif kind == 'insert_chain':
+                        # two existing nodes whose levels differ by the chain length
+                        lev = {n: g.node_depth(n, 0) for n in g.nodes}
+                        r = random.Random(op[1])
+                        pairs = [(a, b) for a in lev for b in lev if lev[b] - lev[a] >= 1]
+                        if not pairs:
+                            continue
+                        a, b = pairs[r.randrange(len(pairs))]
+                        n = lev[b] - lev[a]
+                        oids = [r.choice([0, 1, 2]) for _ in range(n)]
+                        coeffs = [float(r.choice([-2, -1, 1, 2, 3])) for _ in range(n)]
+                        qs = [r.choice([0, 1]) for _ in range(n - 1)]
+                        d = r.choice([0, 1])
+                        if d == 1:
+                            g._insert_opchain(a, b, oids, coeffs, qs, 1)
+                            ra, rb = a, b
+                        else:
+                            g._insert_opchain(b, a, oids, coeffs, qs, 0)
+                            ra, rb = b, a
+                        tr.append(dict(ev='insert_chain', a=int(ra), b=int(rb), oids=oids, coeffs=[int(c) for c in coeffs], qs=qs, dir=d,
+                                       g=graph_json(g), cons=_cons(g)))
                     elif kind == 'add':
                         h = build_graph(ptn, op[1])
                         tr.append(dict(ev='add_begin', h=graph_json(h)))
@@ -289,11 +313,11 @@ def run(ctx):
     if ctx.replay is not None:
         histories = [(ctx.replay['replay']['init'], [tuple(o) for o in ctx.replay['replay']['ops']], None)]
     else:
-        simc = dict(L=3, OIDS='{0,1,2}', QS='{0,1}', MaxTerms=4, MaxTerms2=1, MaxOps=3,
+        simc = dict(L=3, OIDS=ctx.pick('{0,1}', '{0,1,2}'), QS='{0,1}', MaxTerms=ctx.pick(3, 4), MaxTerms2=1, MaxOps=3,
                     RELABELS='{"same","shift","swap","far"}')
         prefix = ctx.work + '/sim'
         r = tlc.run('OpGraph', ctx.work, 'sim', workers=1, constants=simc, defs=dict(COEFS='{-1,1,2}', COEFS2='{1,-1,2}'),
-                    invariants=['DenOK', 'ConsistentOK'], simulate=dict(num=ctx.pick(150, 2500), file=prefix),
+                    invariants=['DenOK', 'ConsistentOK'], simulate=dict(num=ctx.pick(100, 2500), file=prefix),
                     depth=16, seed=ctx.seed + 1, timeout=1500)
         ctx._account('sim', 'OpGraph', r, 'simulate')
         if not r.ok:
@@ -347,8 +371,12 @@ def run(ctx):
                     ops.append(('rename_node', 'pick', rng.choice(['fresh', 'fresh', 'taken']), rng.randrange(1 << 20)))
                 elif k < 0.62:
                     ops.append(('rename_edge', 'pick', rng.choice(['fresh', 'fresh', 'taken']), rng.randrange(1 << 20)))
-                elif k < 0.74:
+                elif k < 0.70:
                     ops.append(('flip',))
+                elif k < 0.76:
+                    ops.append(('depths',))
+                elif k < 0.82:
+                    ops.append(('insert_chain', rng.randrange(1 << 30)))
                 else:
                     other = term_graph(L, random_terms(rng, L, rng.randint(1, 3))) if rng.random() < 0.6 \
                         else layered_graph(rng, L)
